@@ -16,6 +16,7 @@ Record case := mkCase {
   c_blocks : list block;
   c_apply : list (sroot * bid * option sroot);
   c_arrivals : list (N * nat);       (* LIB reported before the arrival, index into c_blocks *)
+  c_modes : list N;                  (* per arrival: pre-check outcome 0 ok / 1 timestamp / 2 sign, +4 = produced by the node itself *)
   c_txs : list txid;
   c_heights : nat;                    (* heights 0 .. c_heights-1 are observed *)
   c_cap : nat;
@@ -84,17 +85,24 @@ Definition clear_evs (n : node) : node :=
 
 Definition dummy_block : block := mkBlock 0 0 0 0 [] 0.
 
-Fixpoint run_steps (c : case) (n : node) (arr : list (N * nat)) : list (list N) :=
+Definition mode_pre (m : N) : precheck :=
+  match m mod 4 with 1 => PreTimestamp | 2 => PreSign | _ => PreOk end.
+Definition mode_own (m : N) : bool := 4 <=? m.
+
+Definition step_node (c : case) (n : node) (l : N) (i : nat) (m : N) : node * result :=
+  add_block_gen (apply_tbl (c_apply c)) (c_f7 c) (c_f27 c) (c_cap c) (mode_own m) (mode_pre m)
+                (set_lib (clear_evs n) l) (nth i (c_blocks c) dummy_block).
+
+Fixpoint run_steps (c : case) (n : node) (arr : list (N * nat)) (modes : list N) : list (list N) :=
   match arr with
   | [] => []
   | (l, i) :: arr' =>
-      let b := nth i (c_blocks c) dummy_block in
-      let '(n', r) := add_block (apply_tbl (c_apply c)) (c_f7 c) (c_f27 c) (c_cap c) (set_lib (clear_evs n) l) b in
-      observe c n' r :: run_steps c n' arr'
+      let '(n', r) := step_node c n l i (hd 0 modes) in
+      observe c n' r :: run_steps c n' arr' (tl modes)
   end.
 
 Definition run_case (c : case) : list (list N) :=
-  run_steps c (init_node (c_genesis c)) (c_arrivals c).
+  run_steps c (init_node (c_genesis c)) (c_arrivals c) (c_modes c).
 
 Fixpoint listN_eqb (a b : list N) : bool :=
   match a, b with
@@ -128,12 +136,10 @@ Definition unit_code (u : wunit) : list N :=
   :: (match u_kind u with USet => 0 | UTx => 1 | UBulk => 2 end)
   :: map (fun o => key_class (fst o) * 2 + (match snd o with Some _ => 0 | None => 1 end)) (u_ops u).
 
-Fixpoint run_nodes (c : case) (n : node) (arr : list (N * nat)) : node :=
+Fixpoint run_nodes (c : case) (n : node) (arr : list (N * nat)) (modes : list N) : node :=
   match arr with
   | [] => n
-  | (l, i) :: arr' =>
-      let b := nth i (c_blocks c) dummy_block in
-      run_nodes c (fst (add_block (apply_tbl (c_apply c)) (c_f7 c) (c_f27 c) (c_cap c) (set_lib (clear_evs n) l) b)) arr'
+  | (l, i) :: arr' => run_nodes c (fst (step_node c n l i (hd 0 modes))) arr' (tl modes)
   end.
 Definition case_units (c : case) : list (list N) :=
-  map unit_code (rev (jlog (run_nodes c (init_node (c_genesis c)) (c_arrivals c)))).
+  map unit_code (rev (jlog (run_nodes c (init_node (c_genesis c)) (c_arrivals c) (c_modes c)))).
